@@ -175,7 +175,9 @@ func cmdCheck(args []string) int {
 		if cfg.Bounds == nil {
 			cfg.Bounds = map[string]int{}
 		}
+		cfg.Deadline = time.Now().Add(15 * time.Minute)
 		if *tier == "thorough" {
+			cfg.Deadline = time.Now().Add(90 * time.Minute)
 			cfg.TimeoutMs = 60000
 			cfg.CrossCheckEvery = 1
 			cfg.XSolvers = []SolverKind{KZ3New, KCVC5}
@@ -248,6 +250,7 @@ func cmdCheck(args []string) int {
 	findings := loadFindings()
 	type group struct {
 		v     *Violation
+		alts  []*Violation // further representatives, tried when the first does not reproduce
 		hr    *HarnessResult
 		count int
 	}
@@ -258,9 +261,12 @@ func cmdCheck(args []string) int {
 			k := violationKey(v)
 			if g, ok := groups[k]; ok {
 				g.count++
-				// prefer the shortest trace as representative
+				// prefer the shortest trace as representative; keep a few others as well
 				if len(v.Trace) < len(g.v.Trace) {
+					g.alts = append(g.alts, g.v)
 					g.v = v
+				} else if len(g.alts) < 40 && g.count%7 == 0 {
+					g.alts = append(g.alts, v)
 				}
 			} else {
 				groups[k] = &group{v: v, hr: hr, count: 1}
@@ -288,6 +294,10 @@ func cmdCheck(args []string) int {
 			continue
 		}
 		path, ok, detail := rp.replayViolation(g.hr, g.v)
+		for i := 0; !ok && i < len(g.alts) && i < 6; i++ {
+			// the model of another path of the same group may be realisable natively
+			path, ok, detail = rp.replayViolation(g.hr, g.alts[len(g.alts)-1-i])
+		}
 		if !ok {
 			notReproduced++
 			inconclusive = append(inconclusive, fmt.Sprintf("counterexample for %s in %s did not reproduce natively (%s); engine or stub defect, replay=%s", g.v.Assert, g.v.Harness, detail, path))
@@ -319,7 +329,7 @@ func cmdCheck(args []string) int {
 
 	wall := time.Since(t0).Seconds()
 	ev := buildEvidence(*prop, *tier, seed, &spec, ld, results, inconclusive, len(violationLines), len(knownLines), reproduced, notReproduced, validated, valFailed, loadS, wall)
-	evPath := filepath.Join(verifDir(), "evidence", *prop+".json")
+	evPath := filepath.Join(outDir(), "evidence", *prop+".json")
 	os.MkdirAll(filepath.Dir(evPath), 0o755)
 	b, _ := json.MarshalIndent(ev, "", " ")
 	os.WriteFile(evPath, append(b, '\n'), 0o644)
